@@ -19,7 +19,7 @@ func init() {
 	fw.Register(&fw.Property{
 		ID:    "C13",
 		Level: "exploration",
-		Rule: "ENUMERATED size classes x log shapes: shape {empty, chain, chain of only big entries (snapshot spans several 256 KiB UnixFS chunks), fork (2 concurrent writers), 3 writers, containing replicated entries, replication in progress (remote fetches held by the gate so the replicator queue is non-empty at save time)} x largest payload {0, 1, 1 KiB, 60 KiB, 65535-ish (64 KiB -1/0/+1 of entry JSON), 70 KiB, 200 KiB, 300 KiB} x store type, with kubo's real UnixFS chunker/reader. SaveSnapshot is called on the live store; when it returns nil a FRESH instance on the same directory calls LoadFromSnapshot (not Load). " +
+		Rule: "ENUMERATED size classes x log shapes: shape {empty, chain, chain of only big entries (snapshot spans several 256 KiB UnixFS chunks), fork (2 concurrent writers), 3 writers, containing replicated entries, replication in progress (remote fetches held by the gate so the replicator queue is non-empty at save time)} x largest payload {0, 1, 1 KiB, 27/36/37/47/48/49 KiB (entry JSON around 65535 bytes after one or two base64 layers), 60 KiB, ~64 KiB, 70 KiB, 200 KiB, 300 KiB; jittered by +-300 bytes in the thorough tier} x store type, with kubo's real UnixFS chunker/reader. SaveSnapshot is called on the live store; when it returns nil a FRESH instance on the same directory calls LoadFromSnapshot (not Load). " +
 			"distinct = (shape, size class, store type, entries); non-trivial = log non-empty or shape is 'empty' (the empty log is a named case), and SaveSnapshot returned (error or nil) without dying",
 		Assumptions: []string{"the snapshot is reloaded by the same peer (its blocks are local)", "entries still being replicated at save time may or may not be in the reloaded state; everything in the log at save time must be"},
 		Cases:       c13Cases,
@@ -32,7 +32,7 @@ func init() {
 }
 
 var c13Shapes = []string{"empty", "chain", "chain-all-big", "fork", "three-writers", "replicated", "in-progress"}
-var c13Sizes = []int{0, 1, 1024, 60 * 1024, 65535 - 700, 65535 - 300, 65535, 70 * 1024, 200 * 1024, 300 * 1024}
+var c13Sizes = []int{0, 1, 1024, 27 * 1024, 36 * 1024, 37 * 1024, 47 * 1024, 48 * 1024, 49 * 1024, 60 * 1024, 65535 - 300, 65535, 70 * 1024, 200 * 1024, 300 * 1024}
 
 func c13Cases(tier string, seed int64) []fw.Case {
 	var out []fw.Case
